@@ -15,8 +15,8 @@ variable {α : Type} {S S₂ : Nat}
 theorem lane_flat (v : Vec α S) (l : Nat) (hl : l < S) : Simd.lane l v = some v[l] := by
   simp [Simd.lane, laneOuter, laneInner, Nat.div_one, Nat.mod_one, Vector.getElem?_eq_getElem hl]
 
-/-- **nested_lane**: lane `l` of a vector of vectors is lane `l % S₂` of entry `l / S₂` … -/
-theorem nested_lane (v : Vec (Vec α S₂) S) (l : Nat) (hl : l < S * S₂) :
+/-- **nested_lane_divmod**: lane `l` of a vector of vectors is lane `l % S₂` of entry `l / S₂` … -/
+theorem nested_lane_divmod (v : Vec (Vec α S₂) S) (l : Nat) (hl : l < S * S₂) :
     ∃ (h1 : l / S₂ < S) (h2 : l % S₂ < S₂), Simd.laneNested l v = some (v[l / S₂])[l % S₂] := by
   have hS2 : 0 < S₂ := by
     rcases Nat.eq_zero_or_pos S₂ with h | h
@@ -29,7 +29,7 @@ theorem nested_lane (v : Vec (Vec α S₂) S) (l : Nat) (hl : l < S * S₂) :
     Vector.getElem?_eq_getElem h2]
 
 /-- … i.e. entry `(i, j)` is lane `i * S₂ + j`: the lanes are numbered in storage order -/
-theorem nested_lane_entry (v : Vec (Vec α S₂) S) (i j : Nat) (hi : i < S) (hj : j < S₂) :
+theorem nested_lane_entry_aux (v : Vec (Vec α S₂) S) (i j : Nat) (hi : i < S) (hj : j < S₂) :
     Simd.laneNested (i * S₂ + j) v = some (v[i])[j] := by
   have hS2 : 0 < S₂ := Nat.lt_of_le_of_lt (Nat.zero_le _) hj
   have hl : i * S₂ + j < S * S₂ := by
@@ -43,7 +43,7 @@ theorem nested_lane_entry (v : Vec (Vec α S₂) S) (i j : Nat) (hi : i < S) (hj
   simp [Simd.laneNested, laneCount, laneOuter, laneInner, hl, hd, hm, Vector.getElem?_eq_getElem hi,
     Vector.getElem?_eq_getElem hj]
 
-theorem nested_lane_count : laneCount S (laneCount S₂ 1) = S * S₂ := by simp [laneCount]
+theorem laneCount_nested : laneCount S (laneCount S₂ 1) = S * S₂ := by simp [laneCount]
 
 /-- assignment through `lane(l, v)` changes lane `l` only -/
 theorem lane_setLane (v : Vec α S) (l l' : Nat) (x : α) (hl : l < S) (hl' : l' < S) :
@@ -105,15 +105,15 @@ theorem cond_nested (m : Vec (Vec Bool S₂) S) (a b : Vec (Vec α S₂) S) :
       (Simd.laneNested l.val m).bind fun c => (Simd.laneNested l.val a).bind fun x => (Simd.laneNested l.val b).bind fun y =>
         some (if c then x else y)) =
       some (Vector.ofFn fun l : Fin (laneCount S S₂) =>
-        if (m[l.val / S₂]'(nested_lane m l.val (hlanes l)).1)[l.val % S₂]'(nested_lane m l.val (hlanes l)).2.1
-        then (a[l.val / S₂]'(nested_lane m l.val (hlanes l)).1)[l.val % S₂]'(nested_lane m l.val (hlanes l)).2.1
-        else (b[l.val / S₂]'(nested_lane m l.val (hlanes l)).1)[l.val % S₂]'(nested_lane m l.val (hlanes l)).2.1) := by
+        if (m[l.val / S₂]'(nested_lane_divmod m l.val (hlanes l)).1)[l.val % S₂]'(nested_lane_divmod m l.val (hlanes l)).2.1
+        then (a[l.val / S₂]'(nested_lane_divmod m l.val (hlanes l)).1)[l.val % S₂]'(nested_lane_divmod m l.val (hlanes l)).2.1
+        else (b[l.val / S₂]'(nested_lane_divmod m l.val (hlanes l)).1)[l.val % S₂]'(nested_lane_divmod m l.val (hlanes l)).2.1) := by
     rw [allSome_eq_some_iff]
     intro i hi
     have hi' : i < S * S₂ := by simpa [laneCount] using hi
-    obtain ⟨_, _, hm⟩ := nested_lane m i hi'
-    obtain ⟨_, _, ha⟩ := nested_lane a i hi'
-    obtain ⟨_, _, hb⟩ := nested_lane b i hi'
+    obtain ⟨_, _, hm⟩ := nested_lane_divmod m i hi'
+    obtain ⟨_, _, ha⟩ := nested_lane_divmod a i hi'
+    obtain ⟨_, _, hb⟩ := nested_lane_divmod b i hi'
     simp [Vector.getElem_ofFn, hm, ha, hb]
   rw [h1]
   simp only [Option.bind_some]
@@ -227,8 +227,8 @@ private theorem mem_toList_iff (m : Vec Bool S) (b : Bool) : b ∈ m.toList ↔ 
   · rintro ⟨l, hl, rfl⟩
     simp
 
-/-- **anyTrue_iff** and its three companions: the reductions of a flat mask are ∃/∀ over the lanes -/
-theorem anyTrue_iff (m : Vec Bool S) :
+/-- **anyTrue_iff_flat** and its three companions: the reductions of a flat mask are ∃/∀ over the lanes -/
+theorem anyTrue_iff_flat (m : Vec Bool S) :
     ∃ r, Simd.reduceFlat .anyTrue m = some r ∧ (r = true ↔ ∃ l, ∃ h : l < S, m[l] = true) := by
   refine ⟨_, reduceFlat_eq _ m, ?_⟩
   simp only [redSpec, List.any_eq_true, id]
@@ -236,7 +236,7 @@ theorem anyTrue_iff (m : Vec Bool S) :
   · rintro ⟨x, hx, rfl⟩; exact (mem_toList_iff m true).mp hx
   · intro h; exact ⟨true, (mem_toList_iff m true).mpr h, rfl⟩
 
-theorem allTrue_iff (m : Vec Bool S) :
+theorem allTrue_iff_flat (m : Vec Bool S) :
     ∃ r, Simd.reduceFlat .allTrue m = some r ∧ (r = true ↔ ∀ l, ∀ h : l < S, m[l] = true) := by
   refine ⟨_, reduceFlat_eq _ m, ?_⟩
   simp only [redSpec, List.all_eq_true, id]
@@ -246,7 +246,7 @@ theorem allTrue_iff (m : Vec Bool S) :
     obtain ⟨l, hl, e⟩ := (mem_toList_iff m x).mp hx
     rw [← e]; exact h l hl
 
-theorem anyFalse_iff (m : Vec Bool S) :
+theorem anyFalse_iff_flat (m : Vec Bool S) :
     ∃ r, Simd.reduceFlat .anyFalse m = some r ∧ (r = true ↔ ∃ l, ∃ h : l < S, m[l] = false) := by
   refine ⟨_, reduceFlat_eq _ m, ?_⟩
   simp only [redSpec, List.any_eq_true]
@@ -257,7 +257,7 @@ theorem anyFalse_iff (m : Vec Bool S) :
     exact (mem_toList_iff m false).mp hx
   · intro h; exact ⟨false, (mem_toList_iff m false).mpr h, rfl⟩
 
-theorem allFalse_iff (m : Vec Bool S) :
+theorem allFalse_iff_flat (m : Vec Bool S) :
     ∃ r, Simd.reduceFlat .allFalse m = some r ∧ (r = true ↔ ∀ l, ∀ h : l < S, m[l] = false) := by
   refine ⟨_, reduceFlat_eq _ m, ?_⟩
   simp only [redSpec, List.all_eq_true]
